@@ -6,6 +6,8 @@ tables  -- Faults; every fault name raised anywhere (static `RPCError(Faults.X)`
            for every public attribute of SupervisorNamespaceRPCInterface how it is gated by
            `self._update(...)`; the method lists of docs/api.rst by section; whether the log
            decoders are tolerant (fix F7); multicall's refusal texts.
+           the request on its way in, by role (way_in_defs): what the body collector keeps per received piece and hands to
+           continue_request, what the channel's header buffer keeps and decodes -- as expressions over as_string / join / +.
 guards  -- traverse(), _update().
 """
 import ast, os, re
@@ -206,6 +208,7 @@ def TABLES():
     tv = find_func(xml, 'traverse')
     out.append('/-- traverse: faults in source order (parts, underscore, namespace, method kind, TypeError) -/')
     out.append('def traverseRaises : List String := [' + ', '.join(lean_str(x) for x in _fault_names(tv)) + ']')
+    out.extend(way_in_defs())
     return out
 
 
@@ -344,25 +347,62 @@ class PyStrTr(Tr):
             return Tr.expr(self, e)
 
 
-# the request body: medusa's collector keeps what the socket delivers (`self.data.append(<kept>)`, once per chunk) and, when
-# Content-Length bytes have arrived, hands `self.handler.continue_request(<text>, request)` one text
-_colldata = Site('supervisor/medusa/xmlrpc_handler.py', 'collector.collect_incoming_data', 'collData', '(data : Sv.Rpc.PyStr)',
-                 {'data': ('data', 'pystr')}, want={'collData_c0_0'}, calls=('self.data.append',))
-_colldata.tr_class = PyStrTr
-_collfound = Site('supervisor/medusa/xmlrpc_handler.py', 'collector.found_terminator', 'collFound', '(chunks : List Sv.Rpc.PyStr)',
-                  {'self.data': ('chunks', 'pylist')}, want={'collFound_c1_0'}, calls=('self.handler.continue_request', 'self.request.channel.set_terminator'))
-_collfound.tr_class = PyStrTr
-# the request header: the channel accumulates `self.in_buffer = <kept>` per chunk and the deferring channel cracks
-# `header = <text>` when the blank line has arrived
-_chandata = Site('supervisor/medusa/http_server.py', 'http_channel.collect_incoming_data', 'chanData', '(buf data : Sv.Rpc.PyStr)',
-                 {'self.in_buffer': ('buf', 'pystr'), 'data': ('data', 'pystr')}, want={'chanData_a0'})
-_chandata.tr_class = PyStrTr
-_chanfound = Site('supervisor/http.py', 'deferring_http_channel.found_terminator', 'chanFound', '(buf : Sv.Rpc.PyStr)',
-                  {'self.in_buffer': ('buf', 'pystr')}, want={'chanFound_a0'})
-_chanfound.tr_class = PyStrTr
+def _calls(func, pred):
+    return [n for n in ast.walk(func) if isinstance(n, ast.Call) and pred(n)]
+
+
+def _only(xs, what):
+    from extract import Untranslatable
+    if len(xs) != 1:
+        raise Untranslatable('%d candidates for %s' % (len(xs), what))
+    return xs[0]
+
+
+def _first_stmt_value(func, pred):
+    """value of the first assignment (source order) satisfying pred"""
+    from extract import Untranslatable
+    cands = sorted((n for n in ast.walk(func) if isinstance(n, ast.Assign) and pred(n)), key=lambda n: (n.lineno, n.col_offset))
+    if not cands:
+        raise Untranslatable('no such assignment')
+    return cands[0].value
+
+
+# The request on its way in, recognised by ROLE (not by statement position or the names of locals), so that a rename or a
+# split into several statements does not disturb the extraction while a moved decode changes the definition:
+#   collKept    what medusa's body collector keeps per received piece:  the argument of `self.data.append(...)`
+#   collHanded  the text it hands on when Content-Length bytes are there: the first argument of `....continue_request(...)`
+#   chanKept    what the channel's header buffer becomes per received piece: the value assigned to `self.in_buffer`
+#   chanHeader  the header text the deferring channel cracks: the first value computed from `self.in_buffer`
+_WAY_IN = [
+    ('collKept', 'supervisor/medusa/xmlrpc_handler.py', 'collector.collect_incoming_data', '(data : Sv.Rpc.PyStr)', {'data': ('data', 'pystr')},
+     lambda f: _only(_only(_calls(f, lambda c: ast.unparse(c.func) == 'self.data.append'), 'self.data.append(...)').args, 'its argument')),
+    ('collHanded', 'supervisor/medusa/xmlrpc_handler.py', 'collector.found_terminator', '(chunks : List Sv.Rpc.PyStr)', {'self.data': ('chunks', 'pylist')},
+     lambda f: _only(_calls(f, lambda c: isinstance(c.func, ast.Attribute) and c.func.attr == 'continue_request'), '...continue_request(...)').args[0]),
+    ('chanKept', 'supervisor/medusa/http_server.py', 'http_channel.collect_incoming_data', '(buf data : Sv.Rpc.PyStr)',
+     {'self.in_buffer': ('buf', 'pystr'), 'data': ('data', 'pystr')},
+     lambda f: _first_stmt_value(f, lambda a: len(a.targets) == 1 and ast.unparse(a.targets[0]) == 'self.in_buffer')),
+    ('chanHeader', 'supervisor/http.py', 'deferring_http_channel.found_terminator', '(buf : Sv.Rpc.PyStr)', {'self.in_buffer': ('buf', 'pystr')},
+     lambda f: _first_stmt_value(f, lambda a: any(ast.unparse(n) == 'self.in_buffer' for n in ast.walk(a.value)))),
+]
+
+
+def way_in_defs():
+    out = ['/-! the request on its way in (body collector, header buffer), by role; `Except.error` = the exception raised -/']
+    for name, file, qual, params, vars_, pick in _WAY_IN:
+        try:
+            func = find_func(_parse(file), qual)
+            tr = PyStrTr(Site(file, qual, name, params, vars_), func)
+            e = pick(func)
+            body = tr.pexpr(e)
+            out.append('-- %s:%s:%d  %s' % (file, qual, e.lineno, ast.unparse(e).replace('\n', ' ')))
+            out.append('def %s %s : Except String Sv.Rpc.PyStr := %s' % (name, params, body))
+        except Exception as ex:
+            out.append('-- %s  %s:%s  UNTRANSLATED (%s: %s)' % (name, file, qual, type(ex).__name__, str(ex).replace('\n', ' ')))
+    return out
+
 
 SITES = [
-    _traverse, _immediate, _defmore, _defresp, _colldata, _collfound, _chandata, _chanfound,
+    _traverse, _immediate, _defmore, _defresp,
     # g0: isinstance(mood, int) and mood < SupervisorStates.RUNNING
     Site('supervisor/rpcinterface.py', 'SupervisorNamespaceRPCInterface._update', 'update', '(moodIsInt : Bool) (mood : Int)',
          {'isinstance(self.supervisord.options.mood, int)': ('moodIsInt', 'bool'), 'self.supervisord.options.mood': ('mood', 'int')},
